@@ -344,7 +344,47 @@ class Check(Property):
             pass
         return v
 
+    def dim_hom_probe(self):
+        """the dimensionality of a product, quotient or power is the product, quotient or power of the dimensionalities: for
+        unit names AND for derived dimension names ([area], [speed], ...), with integer and rational exponents"""
+        import random
+        v = []
+        u = reg("fraction")
+        rng = random.Random(4)
+        dims = [k for k in u._dimensions if k not in ("[]",)]
+        units = ["meter", "inch", "newton", "liter", "hertz", "joule", "volt", "acre", "knot", "pascal", "weber", "degree_Celsius", "radian"]
+        pool = [(d, True) for d in dims] + [(x, False) for x in units]
+
+        def dim_of(items):
+            return u.get_dimensionality(u.UnitsContainer(dict(items)))
+        for _ in range(400):
+            a, a_is_dim = rng.choice(pool)
+            cand = [p_ for p_ in pool if p_[1] == a_is_dim and p_[0] != a]
+            b, _b = rng.choice(cand)
+            e1 = rng.choice([1, 2, 3, -1, -2, Fraction(1, 2), Fraction(-3, 2)])
+            e2 = rng.choice([1, 2, -1, -3, Fraction(1, 3)])
+            try:
+                da, db = dim_of({a: 1}), dim_of({b: 1})
+                want_pow = da ** e1
+                got_pow = dim_of({a: e1})
+                if got_pow != want_pow:
+                    v.append(f"C04 get_dimensionality({a} ** {e1}) = {dict(got_pow)}, get_dimensionality({a}) ** {e1} = {dict(want_pow)}")
+                want_prod = (da ** e1) * (db ** e2)
+                got_prod = dim_of({a: e1, b: e2})
+                if got_prod != want_prod:
+                    v.append(f"C04 get_dimensionality({a} ** {e1} * {b} ** {e2}) = {dict(got_prod)}, the product of the dimensionalities is {dict(want_prod)}")
+            except Exception as exc:  # noqa: BLE001
+                v.append(f"C04 get_dimensionality of {a} ** {e1} * {b} ** {e2} raised {type(exc).__name__}: {exc}")
+            if len(v) > 8:
+                break
+        return v
+
     def oracle(self, c):
+        if not getattr(self, "_dim_hom_done", False):
+            self._dim_hom_done = True
+            dv = self.dim_hom_probe()
+            if dv:
+                return dv
         if c["layer"] == "pi":
             return self.oracle_pi(c)
         if c["layer"] == "cef":
